@@ -79,6 +79,56 @@ def run(ctx):
             okn = bool(nows) and all(pt.in_loop(b) for b in nows) and all(any(x[0] == "call" and x[3] in nows for x in origin_walk(pt.origin(t["args"][0]))) for bb, t in els)
             ctx.ob("C17.5", "%s|elapsed-measured-per-wait" % rid, "the elapsed time charged against the timeout is measured from just before each wait (not accumulated twice)", okn,
                    pt.loc(els[0][0]), None if okn else "Instant::now() is taken outside the wait loop while elapsed() is subtracted on every wake-up: after two wake-ups the budget is exhausted early")
+    # the total time spent is bounded: after every further wake-up that was not a timeout, the decision whether to wait again takes the time
+    # spent in ALL earlier waits of this call into account (an accumulated budget charged with each wait's own duration, or a start /
+    # deadline instant taken once before the first wait).  A budget recomputed from the last wait alone lets a receiver whose wake-ups
+    # keep being stolen stay blocked for ever.
+    import absint
+    TIME = r"^std::time::Instant::(now|elapsed|duration_since|checked_duration_since|saturating_duration_since)$"
+    for rid in m.consumers:
+        pt = m.inl[rid]
+        tw = {bb for bb in Q.wait_calls(pt) if call_is(pt.term(bb), CV_WAIT_T)}
+        if not tw:
+            continue
+        bad, n2 = [], 0
+        for p in Q._paths(pt):
+            evs = p.events
+            widx = [k for k, e in enumerate(evs) if e[1] == "call" and e[0] in tw]
+            if len(widx) < 2:
+                continue
+            last = evs[widx[-1]][4]
+            # only paths on which the last wait was a notification, not a timeout
+            tout = None
+            for bb_, c in p.conds:
+                if c and c[0] == "scalar" and isinstance(c[2], bool):
+                    v, val = c[1], c[2]
+                    while v and v[0] == "unop" and v[1] == "Not":
+                        v, val = v[2], not val
+                    if v and v[0] == "call" and re.search(r"WaitTimeoutResult::timed_out$", v[1]) and absint.mentions_call(v, last):
+                        tout = val
+            if tout is not False:
+                continue
+            n2 += 1
+            times = [(k, e) for k, e in enumerate(evs) if e[1] == "call" and re.search(TIME, e[2])]
+            before_first = [e for k, e in times if k < widx[0]]
+            after = lambda i: [e for k, e in times if k > widx[i] and (i + 1 == len(widx) or k < widx[i + 1])]
+            ok = False
+            for bb_, c in p.conds:
+                if not (c and c[0] == "scalar"):
+                    continue
+                v = c[1]
+                if not any(absint.mentions_call(v, e[4]) for e in after(len(widx) - 1)) and not (before_first and any(absint.mentions_call(v, e[4]) for k, e in times if k > widx[-1])):
+                    continue        # not a decision taken after the last wake-up
+                whole = all(any(absint.mentions_call(v, e[4]) for e in after(i)) for i in range(len(widx)))
+                anchored = any(absint.mentions_call(v, e[4]) for e in before_first)
+                if whole or anchored:
+                    ok = True
+            if not ok:
+                bad.append("after wake-up #%d the decision to wait again depends at most on the time spent in the last wait" % len(widx))
+        ctx.paths += n2
+        ctx.ob("C17.5", "%s|budget-charged-with-every-wait" % rid,
+               "the time spent in every earlier wait of the same call counts against the timeout when the receiver decides whether to wait again (total blocking time is bounded)",
+               n2 > 0 and not bad, "%s:%d" % (pt.file, pt.line), None if not bad else bad[0])
     ctx.floor("C17.5 timed waits in the queue's consumers", timed, 1)
     srt = S.server_fn(facts, "recv_timeout")
     for bb in [b for b, t in srt.calls() if call_name(t) in m.consumers]:
